@@ -90,6 +90,10 @@ def meta_items(kind, sites, ns, stream="ap", encoding="shank", fs=None, gains=No
         ("imAiRangeMax", fixed(vrange)),
         ("imAiRangeMin", "-" + fixed(vrange)),
     ]
+    if encoding == "geom":
+        # SpikeGLX >= 2023 also writes the AP gain of channel 0 (the per-channel gains stay in the IMRO table), see sample3B_version202304.ap.meta
+        g0 = (gains[0][0] if (gains and fam != "NP2") else (100 if fam == "NP2" else 500))
+        items += [("imAnyChanFullBand", "false"), ("imCalibrated", "true"), ("imChan0apGain", "%d" % g0)]
     if kind == "3A":
         items += [("imProbeOpt", "3"), ("imProbeSN", "641251510")]
     else:
